@@ -96,6 +96,15 @@ Definition q_nav_path : stmt :=
 Lemma nav_path_leaks : leaks q_nav_path.
 Proof. split; [vm_compute; reflexivity|]. eexists. split; vm_compute; reflexivity. Qed.
 
+(* SELECT (SELECT (SELECT `<-` AS up FROM dual) AS i FROM dual) AS s FROM t: the same through a column
+   path in a dual SELECT at depth 2 (also leaked by the real engine) *)
+Definition q_nav_col : stmt :=
+  SSelect (sel (FTable ["t"] "")
+     [IExpr (ESub (SSelect (sel FDual
+        [IExpr (ESub (SSelect (sel FDual [IExpr (ECol ["<-"]) "up"]))) "i"]))) "s"]).
+Lemma nav_col_leaks : leaks q_nav_col.
+Proof. split; [vm_compute; reflexivity|]. eexists. split; vm_compute; reflexivity. Qed.
+
 (* SELECT a AS `<-` FROM t *)
 Definition q_alias : stmt := SSelect (sel (FTable ["t"] "") [IExpr (ECol ["a"]) "<-"]).
 Lemma alias_leaks : leaks q_alias.
